@@ -5,22 +5,23 @@ import ZeepVerif.Lemmas.ReadDecide
 import ZeepVerif.Driver.Util
 
 namespace ZeepVerif.Driver.ReadDrv
-open ZeepVerif ZeepVerif.Model ZeepVerif.Lemmas.ReadFile ZeepVerif.Lemmas.ReadDecide
+open ZeepVerif ZeepVerif.Model ZeepVerif.Lemmas.ReadFile ZeepVerif.Lemmas.ReadDecide ZeepVerif.Lemmas.ReadComp
 
 def evalOne (files : List XFile) (start : String) : String :=
   match files with
   | [xf] =>
     if xf.name != start then s!"plain=- closed=- files=1"
-    else if plainFileB xf then
+    else if coveredFileB xf then
       match xf.tops with
       | some [schema] =>
         let tns := (schema.attr? "targetNamespace").getD ""
         let d := fileDoc schema tns
-        let expected := d.nodes ++ schema.kids.filterMap (nodeOf d [schema])
+        let expected := d.nodes ++ schema.kids.filterMap (nodeOfC d [schema])
         match readXml [xf] xf.name with
         | .ok got =>
           if got.nodes == expected && got.lookup == d.lookup && got.namespaces == d.namespaces &&
-             got.targetNamespaces == d.targetNamespaces && got.current == d.current then "plain=1 closed=ok files=1"
+             got.targetNamespaces == d.targetNamespaces && got.current == d.current then
+            (if plainFileB xf then "plain=1 closed=ok files=1" else "plain=1 closed=ok files=1 general")
           else "plain=1 closed=differs files=1"
         | .error e => "plain=1 closed=differs:" ++ e.name ++ " files=1"
       | _ => "plain=1 closed=differs files=1"
